@@ -316,6 +316,39 @@ def op_type(kind, args, method, value):
     return fn
 
 
+_FRESH = [0]
+
+
+def op_fresh(kind, n):
+    """n values no earlier call in this process has seen (a process-wide counter): whatever the converters
+    remember about earlier values - memo tables, bounded caches and their eviction - is driven through its
+    whole life; each result is checked against plain arithmetic"""
+    def fn():
+        import decimal
+        from ofxtools import Types
+        bad = []
+        for _ in range(n):
+            _FRESH[0] += 1
+            k = _FRESH[0]
+            if kind == "DateTime":
+                want = datetime.datetime(2001, 1, 1, tzinfo=UTC) + datetime.timedelta(seconds=97 * k)
+                got = Types.DateTime().convert(want.strftime("%Y%m%d%H%M%S"))
+            elif kind == "Time":
+                want = (datetime.datetime(2001, 1, 1, tzinfo=UTC) + datetime.timedelta(seconds=61 * k)).timetz()
+                got = Types.Time().convert(want.strftime("%H%M%S") + f".{k % 1000:03d}")
+                want = want.replace(microsecond=(k % 1000) * 1000)
+            else:
+                text = f"{k}.{k % 100:02d}"
+                want = decimal.Decimal(text)
+                got = Types.Decimal(2).convert(text)
+            if got != want:
+                bad.append(k)
+        if bad:
+            raise K2(f"{len(bad)} of {n} never-seen {kind} values converted to something else than arithmetic says")
+        return {"fresh": kind, "n": n}
+    return fn
+
+
 def build_ops():
     docs = _docs()
     ops = []
@@ -342,6 +375,9 @@ def build_ops():
     ops.append(("pipeline-rep:stmt:v1u", op_pipeline(_file(docs["stmt"], 102, "v1u", False), {"version": 102, "close_elements": False}, repeat=True)))
     ops.append(("pipeline-rep:invest:v2pretty", op_pipeline(_file(docs["invest"], 203, "v2", True), {"version": 220, "prettyprint": True}, repeat=True)))
     ops.append(("pipeline-rep:ext:v1c", op_pipeline(_file(docs["ext"], 160, "v1c", False), {"version": 103, "prettyprint": True, "close_elements": True}, repeat=True)))
+    for kind in ("DateTime", "Time", "Decimal"):
+        ops.append((f"fresh:{kind}:300", op_fresh(kind, 300)))
+    ops.append(("fresh:DateTime:600", op_fresh("DateTime", 600)))
     ops.append(("reuse:stmt:v1u", op_reuse(_file(docs["stmt"], 102, "v1u", False))))
     ops.append(("reuse:invest:v2", op_reuse(_file(docs["invest"], 203, "v2", True))))
     for nm in ("bad_enum", "missing_required", "out_of_order"):
@@ -741,7 +777,7 @@ class Threads:
         focus = None
         if famlist and ch.flag("cfg.focus", 0.5):
             # date-time handling is where the shared converters carry run-time state: weight it up
-            weights = [6 if ("tzvar" in k or "DateTime" in k or "Time" in k) else 1 for k in famlist]
+            weights = [6 if ("tzvar" in k or "DateTime" in k or "Time" in k or k == "fresh") else 1 for k in famlist]
             focus = fams[famlist[ch.weighted("cfg.focus.family", weights)]]
             sim.log(f"focus family: {focus[0].rsplit(':', 1)[0]} ({len(focus)} operations)")
             sim.count("probe.focus_runs")
@@ -749,6 +785,8 @@ class Threads:
         for t in range(n_tasks):
             pool = focus if focus is not None else (tiny if n_tasks == 16 else names)
             k = 1 + ch.pick("task.ops", 3)
+            if focus is not None and focus[0].startswith("fresh:") and n_tasks > 6:
+                k = 1            # (hundreds of conversions per operation: keep many-task runs under the step cap)
             plans.append([pool[ch.pick("task.op", len(pool))] for _ in range(k)])
 
         def body(t, ops):
